@@ -37,6 +37,13 @@
  *      adjacent areas, at both ends of and inside a gap, in front of the first
  *      area, at and above the end of the last), memory- and callback-backed,
  *      four register lists, every window x the three operations.
+ *  P7  top of the address space: the family of P1 (regfam.h, part T) and the
+ *      tables of P2 moved up so that the LAST WORD of the table is 0xffffffff
+ *      -- the last area, registers at its end and windows reaching it end at
+ *      2^32, which 32-bit arithmetic cannot hold.  Every (address, length)
+ *      from one below the first area up to 0xffffffff with address + length
+ *      <= 2^32 (nothing wraps) x the three operations of P1.  The reference
+ *      forms every exclusive end in 64 bits.
  */
 #include "mc.h"
 #include "regfam.h"
@@ -106,8 +113,9 @@ static int
 ref_cb_chunks(const struct tspec *s, uint32_t addr, uint32_t n)
 {
     int k = 0;
+    /* exclusive ends in 64 bits: an area or a window may end at 2^32 */
     for (int i = 0; i < s->na; ++i)
-        if (s->a[i].cb && flat_readable(&s->a[i]) && n > 0 && s->a[i].base < addr + n && addr < s->a[i].base + s->a[i].size)
+        if (s->a[i].cb && flat_readable(&s->a[i]) && n > 0 && s->a[i].base < (uint64_t)addr + n && addr < (uint64_t)s->a[i].base + s->a[i].size)
             k++;
     return k;
 }
@@ -115,8 +123,8 @@ ref_cb_chunks(const struct tspec *s, uint32_t addr, uint32_t n)
 static long
 ref_first_unmapped(const struct tspec *s, uint32_t addr, uint32_t n)
 {
-    for (uint32_t a = addr; a < addr + n; ++a)
-        if (flat_area_of(s, a) < 0)
+    for (uint64_t a = addr; a < (uint64_t)addr + n; ++a) /* the window may end at 2^32 */
+        if (flat_area_of(s, (uint32_t)a) < 0)
             return (long)a;
     return -1;
 }
@@ -196,7 +204,7 @@ do_iter(uint32_t addr, uint32_t len)
     int expect[RT_MAXR], ne = 0;
     for (int r = 0; r < s->nr; ++r) {
         const uint32_t ra = s->r[r].addr, rw = ref_words(s->r[r].type);
-        if (len > 0 && ra < addr + len && addr < ra + rw)
+        if (len > 0 && ra < (uint64_t)addr + len && addr < (uint64_t)ra + rw) /* either may end at 2^32 */
             expect[ne++] = r;
     }
     bool ok = true;
@@ -262,6 +270,25 @@ fill_distinct(void)
             tb.store[i][w] = (RegisterAtom)(0x1100 * (i + 1) + 0x11 * (w + 1));
 }
 
+/* outcome classes of the tables whose last word is 0xffffffff (P6);
+ * to_last: the window / range ends at 2^32 */
+static const char *
+top_outcome(const char *o, bool to_last)
+{
+    if (!strcmp(o, "read-empty")) return "top-read-empty";
+    if (!strcmp(o, "read-ok")) return to_last ? "top-read-ok-to-last-word" : "top-read-ok";
+    if (!strcmp(o, "read-ok-with-unreadable")) return to_last ? "top-read-ok-with-unreadable-to-last-word" : "top-read-ok-with-unreadable";
+    if (!strcmp(o, "read-ok-no-read-function")) return "top-read-ok-no-read-function";
+    if (!strcmp(o, "read-unmapped")) return "top-read-unmapped";
+    if (!strcmp(o, "fault-not-reached")) return "top-fault-not-reached";
+    if (!strcmp(o, "fault-first-chunk")) return "top-fault-first-chunk";
+    if (!strcmp(o, "fault-later-chunk")) return "top-fault-later-chunk";
+    if (!strcmp(o, "iter-none")) return "top-iter-none";
+    if (!strcmp(o, "iter-some")) return to_last ? "top-iter-some-to-last-word" : "top-iter-some";
+    if (!strcmp(o, "iter-all")) return to_last ? "top-iter-all-to-last-word" : "top-iter-all";
+    return o; /* failed */
+}
+
 /* ---- P1 / P2: one table, every window, three operations ------------------------ */
 static void
 run_table(const struct tspec *s, int ti)
@@ -279,17 +306,19 @@ run_table(const struct tspec *s, int ti)
         if (g_hybrid[i])
             snprintf(extra + strlen(extra), sizeof extra - strlen(extra), "%s%d", extra[0] ? "," : " areas with read function and shadow mem:", i);
 #endif
+    const bool top = fam_is_top(s);
+    const uint32_t span = fam_span(s); /* ten addresses; top tables: from one below the first area up to 0xffffffff */
     for (int mode = 0; mode < 3; ++mode)
-        for (uint32_t rel = 0; rel <= FAM_MAXADDR; ++rel)
-            for (uint32_t n = 0; rel + n <= FAM_MAXADDR + 1; ++n) {
-                const uint32_t addr = fam_origin(s) + rel;
+        for (uint32_t rel = 0; rel < span; ++rel)
+            for (uint32_t n = 0; rel + n <= span; ++n) {
+                const uint32_t addr = fam_origin(s) + rel; /* <= 0xffffffff and addr + n <= 2^32 */
                 /* fault positions: one case per chunk of a fully mapped window */
                 const int nk = mode < 2 ? 1 : ref_first_unmapped(s, addr, n) >= 0 ? 0 : ref_cb_chunks(s, addr, n);
                 for (int k = 0; k < nk; ++k) {
                     if (mode < 2) {
-                        if (!mc_case("table#%d %s%s %s=(%u,%u)", ti, tspec_str(s), extra, MODE[mode], addr, n))
+                        if (!mc_case("table#%d %s%s %s=(%s,%u)", ti, tspec_str(s), extra, MODE[mode], addr_str(addr), n))
                             continue;
-                    } else if (!mc_case("table#%d %s%s %s=(%u,%u) read callback %d of the call fails", ti, tspec_str(s), extra, MODE[mode], addr, n, k))
+                    } else if (!mc_case("table#%d %s%s %s=(%s,%u) read callback %d of the call fails", ti, tspec_str(s), extra, MODE[mode], addr_str(addr), n, k))
                         continue;
                     if (!tb_built) {
                         tab_build(&tb, s);
@@ -334,6 +363,8 @@ run_table(const struct tspec *s, int ti)
                         for (int i = 0; i < s->na; ++i)
                             if (s->a[i].size == 0 && addr < s->a[i].base && s->a[i].base - addr < n)
                                 o = "read-ok-across-empty-area";
+                    if (top)
+                        o = top_outcome(o, (uint64_t)addr + n == 0x100000000ull);
                     mc_end(true, o);
                 }
             }
@@ -352,6 +383,8 @@ static const struct layout XLAYOUTS[] = {
     { 3, { 1, 3, 4 }, { 2, 1, 3 } },
 };
 static const uint32_t X4_BASE[4] = { 1, 2, 4, 5 }, X4_SIZE[4] = { 1, 2, 1, 2 };
+static uint32_t x_shift; /* added to every address of the P2 tables; both layouts end at word 6 */
+#define X_TOP_SHIFT 0xfffffff9u /* word 6 becomes 0xffffffff */
 
 static void
 xfam_area(struct aspec *a, uint32_t base, uint32_t size, int kind)
@@ -379,9 +412,9 @@ xfam_enumerate(fam_fn fn, int idx)
             int cc = c;
             for (int i = 0; i < na; ++i, cc /= 4) {
                 if (na == 3)
-                    xfam_area(&s.a[i], XLAYOUTS[0].base[i], XLAYOUTS[0].size[i], cc % 4);
+                    xfam_area(&s.a[i], XLAYOUTS[0].base[i] + x_shift, XLAYOUTS[0].size[i], cc % 4);
                 else
-                    xfam_area(&s.a[i], X4_BASE[i], X4_SIZE[i], cc % 4);
+                    xfam_area(&s.a[i], X4_BASE[i] + x_shift, X4_SIZE[i], cc % 4);
                 g_noread[i] = (cc % 4) == 3;
                 /* one 16-bit register at the base of every area */
                 s.r[s.nr].type = REG_TYPE_UINT16;
@@ -1143,13 +1176,24 @@ main(int argc, char **argv)
 #endif
     run_histories(th);
     const int nbig = run_bigs(th);
-    char bound[1000];
+    /* P6: tables whose last word is 0xffffffff */
+    const int ntop0 = ntab;
+    ntab = fam_enumerate_top(run_table, ntab, th);
+    const int ntopfam = ntab - ntop0;
+    x_shift = X_TOP_SHIFT;
+    ntab = xfam_enumerate(run_table, ntab);
+    x_shift = 0;
+    const int ntopx = ntab - ntop0 - ntopfam;
+    char bound[1300];
     snprintf(bound, sizeof bound,
              "%d family tables + %d tables of 3/4 adjacent areas + %d tables at address shifts 0x7ffffffc/0xfffffff5 + %d tables with one or two zero-sized areas at every list position and admissible base x every (address,length) over 10 addresses x "
              "{block read, iteration with every stop script (results +-1 at every position; +-2, +-256, +-65536, INT_MIN/MAX at the first and last position), "
              "block read with a read-callback fault at every chunk position}; %lld re-initialisation histories (ordered pairs%s of register lists on one area array) "
-             "x every window x {block read, iteration}; %d tables of 65534..65544 registers x windows around 2^16 and the area edges",
-             nfam, nx, nshift, nzero, (long long)hist_count, th ? " and triples" : "", nbig);
+             "x every window x {block read, iteration}; %d tables of 65534..65544 registers x windows around 2^16 and the area edges; "
+             "top of the address space: %d family tables (layouts A-D moved up so that the last word is 0xffffffff x mem/cb x LE/BE x singles at every placement, pairs, "
+             "curated lists, every access-flag combination of F2) + %d tables of 3/4 adjacent areas ending at 0xffffffff x every (address,length) from one below the "
+             "first area up to 0xffffffff with address+length <= 2^32 x the same three operations",
+             nfam, nx, nshift, nzero, (long long)hist_count, th ? " and triples" : "", nbig, ntopfam, ntopx);
     mc_finish(true, bound);
     return 0;
 }
